@@ -557,7 +557,7 @@ def main():
         out.append('')
         report.append((name, 'pin'))
     out.append('end ConvSrc')
-    path = os.path.join(ROOT, 'lean', 'SmoothModel', 'Gen', 'ConvSrc.lean')
+    path = sys.argv[2] if len(sys.argv) > 2 else os.path.join(ROOT, 'lean', 'SmoothModel', 'Gen', 'ConvSrc.lean')
     new = '\n'.join(out) + '\n'
     old = open(path).read() if os.path.exists(path) else None
     if old != new:
